@@ -112,6 +112,10 @@ func (w *world) Ops() []seqx.Op {
 		if w.has("setdata") {
 			ops = append(ops, op{C: i, Kind: "setdata", Arg: "v"}, op{C: i, Kind: "setdata", Arg: ""})
 		}
+		// the member publishes a stream (so that losing 'present' has streams to close)
+		if w.has("offer") && i == 1 && len(c.V.UpIDs()) == 0 {
+			ops = append(ops, op{C: i, Kind: "offer"})
+		}
 		// moderation (refused by the server unless the sender is an operator)
 		for t := range w.w.Clients {
 			if t == i || w.w.Clients[t].V.Closed {
@@ -309,6 +313,8 @@ func (w *world) Apply(x seqx.Op) *core.Violation {
 				g = c.V.Group().Name()
 			}
 			m = sig.Msg{"type": "join", "kind": "leave", "group": g}
+		case "offer":
+			m = sig.Msg{"type": "offer", "id": "s1", "label": "camera", "source": c.ID, "username": u, "sdp": sig.OfferSDP("a")}
 		case "setdata":
 			var v any
 			if o.Arg != "" {
@@ -442,10 +448,11 @@ var alphabets = map[string][]string{
 	"moderation": {"kick", "op", "unop", "present", "unpresent", "lazy"},
 	"data":       {"setdata", "unpresent", "lazy", "lazy-membership"},
 	"whip":       {"kick", "whip"},
+	"publishing": {"offer", "present", "unpresent", "op", "lazy"},
 }
 
 func cfg(a string) seqx.Config {
-	d := map[string]int{"membership": core.Pick(6, 8), "moderation": core.Pick(5, 6), "data": core.Pick(5, 7), "whip": core.Pick(5, 7)}[a]
+	d := map[string]int{"membership": core.Pick(6, 8), "moderation": core.Pick(5, 6), "data": core.Pick(5, 7), "whip": core.Pick(5, 7), "publishing": core.Pick(5, 6)}[a]
 	return seqx.Config{Name: "views/" + a, Fresh: fresh(alphabets[a]), MaxDepth: d, Parallel: 1}
 }
 
@@ -573,7 +580,7 @@ func main() {
 	}
 	job := 0
 	agg := map[string]*core.Sub{}
-	names := []string{"membership", "moderation", "data", "whip"}
+	names := []string{"membership", "moderation", "data", "whip", "publishing"}
 	for _, a := range names {
 		w0 := fresh(alphabets[a])()
 		first := w0.Ops()
